@@ -48,39 +48,36 @@ Proof.
   intros t _. destruct t as [|t]; cbn; auto.
 Qed.
 
-(** a sequential run in which the recreate path deletes: one issuance, CA re-installed before
-    its order *)
-Definition only0 (s : state) : Prop := forall t, t <> 0 -> pcof s t = Idle.
-Definition label0 (l : label) : bool :=
-  match l with Start 0 _ | Op 0 _ | Crash 0 | Reset _ => true | _ => false end.
-
-Lemma seq_run0 ls : forall s s1, seq_reachable s -> only0 s -> forallb label0 ls = true ->
-  run s ls = Some s1 -> seq_reachable s1 /\ only0 s1.
-Proof.
-  induction ls as [|l r IH]; intros s s1 Hs H0 Hl Hr; cbn in *.
-  - injection Hr as <-. split; assumption.
-  - apply Bool.andb_true_iff in Hl. destruct Hl as [Hl Hl'].
-    destruct (step s l) as [s2|] eqn:E; [|discriminate].
-    apply (IH s2 s1); auto.
-    + eapply seq_next; [exact Hs| |exact E].
-      unfold seq_ok. destruct l as [[|?] ?|[|?] ?|[|?]|?]; cbn in *; try discriminate; auto;
-        intros t' Ht'; rewrite (H0 t' Ht'); reflexivity.
-    + intros t Ht. destruct (label_tid l) as [t0|] eqn:Et.
-      * assert (t0 = 0) by (destruct l as [[|?] ?|[|?] ?|[|?]|?]; cbn in *; congruence). subst t0.
-        rewrite (thr_frame _ _ _ _ _ E Et Ht). apply H0. exact Ht.
-      * destruct l; cbn in Et; try discriminate. step_cases E. cbn. apply H0. exact Ht.
-Qed.
-
-Example sequential_recreate_reachable :
-  exists s, seq_reachable s /\ slots s 0 = Slot (Some 1) (Some 1) /\
+(** the recreate path about to delete: one issuance, CA re-installed before its order; the
+    thread holds the lock, has found the very account it was refused with, and its next
+    operation changes the stored account (hypotheses of [replaced_only_if_ca_says_gone]) *)
+Example recreate_reachable :
+  exists s, run init (Start 0 0 :: ops 0 7 ++ Reset 0 :: ops 0 4) = Some s /\
+            slots s 0 = Slot (Some 1) (Some 1) /\ lock s = Some 0 /\
             pcof s 0 = DelReg (MA 1 1) /\ live s 0 1 = false /\
             exists s1, step s (Op 0 false) = Some s1 /\ slots s1 0 <> slots s 0.
 Proof.
-  destruct (run init (Start 0 0 :: ops 0 7 ++ [Reset 0; Op 0 false])) as [s|] eqn:E.
-  2: { vm_compute in E. discriminate. }
-  exists s.
-  assert (Hl : forallb label0 (Start 0 0 :: ops 0 7 ++ [Reset 0; Op 0 false]) = true) by reflexivity.
-  destruct (seq_run0 _ init s seq_init (fun t _ => eq_refl) Hl E) as [Hs _].
-  split; [exact Hs|]. revert E. vm_compute. intros E. injection E as <-.
-  repeat split; try reflexivity. eexists. split; [reflexivity|]. cbn. discriminate.
+  eexists. split; [vm_compute; reflexivity|]. vm_compute. repeat split; try reflexivity.
+  eexists. split; [reflexivity|]. discriminate.
 Qed.
+
+(** the bound of [registrations_bounded_by_reinstallations] is attained: first use, the CA is
+    re-installed, the next issuance recreates the account *)
+Example reinstallation_bound_attained :
+  exists s, run init (Start 0 0 :: ops 0 8 ++ Reset 0 :: Start 1 0 :: ops 1 17) = Some s /\
+            created s 0 = 2 /\ fsaves s 0 = 0 /\ crashes s 0 = 0 /\ resets s 0 = 1 /\
+            slots s 0 = Slot (Some 2) (Some 2) /\ pcof s 1 = Done (Some (MA 2 2)).
+Proof. eexists. split; [vm_compute; reflexivity|]. vm_compute. repeat split; reflexivity. Qed.
+
+(** a failed Unlock: the issuance goes on and succeeds, the lock stays held *)
+Example unlock_fault_leaves_lock :
+  exists s, run init (Start 0 0 :: ops 0 6 ++ [Op 0 true; Op 0 false]) = Some s /\
+            unlock_faults init (Start 0 0 :: ops 0 6 ++ [Op 0 true; Op 0 false]) = 1 /\
+            pcof s 0 = Done (Some (MA 1 1)) /\ lock s = Some 0.
+Proof. eexists. split; [vm_compute; reflexivity|]. vm_compute. repeat split; reflexivity. Qed.
+
+(** ... and without one it is free (hypotheses of [lock_free_when_quiescent]) *)
+Example no_unlock_fault_run :
+  unlock_faults init run_first_use = 0 /\
+  exists s, run init run_first_use = Some s /\ lock s = None.
+Proof. split; [vm_compute; reflexivity|]. eexists. split; vm_compute; reflexivity. Qed.
